@@ -29,15 +29,28 @@ def run(ctx):
     precs = range(0, 10) if ctx.tier == 'thorough' else (0, 2, 9)
     for p in precs:
         ctx.add(Harness('C08_dtoa_p%d' % p, H + '/C08_dtoa.c', defines=defs + ['PREC=%d' % p, 'MODP_C="%s/runtime/modp_numtoa.c"' % REPO], unwind=26, cover_defines=['CX_V=1234.5678'],
-                        flags=['-I', REPO + '/include'], backend='kissat', timeout=600 if ctx.tier == 'quick' else 3000, mem_gb=16,
+                        flags=['-I', REPO + '/include', '--stop-on-fail'], backend='default', timeout=600 if ctx.tier == 'quick' else 3000, mem_gb=16,
                         functions=['modp_dtoa (runtime/modp_numtoa.c, compiled by CBMC\'s C front end)'],
                         bounds='every finite double |v| < 2^31, precision %d' % p, desc='exact correct-rounding oracle in 128-bit integers'))
     ctx.assumptions += ['round-to-nearest-even FPU mode', 'sprintf("%e") path of modp_dtoa (|v| > 2^31-1) is outside the magnitude bound',
                         'fast_atof is exercised by the native differential run only in this tier (symbolic double division chains did not return verdicts inside the budget)']
     ctx.solve()
-    ctx.handle_failures(replay, kf)
+    ctx.handle_failures(replay, kf, classifier=classify)
     announce_known(ctx, kf, replay)
     return ctx.finish()
+
+def classify(cx, h=None):
+    """which committed known finding (if any) covers this replayed float counterexample"""
+    c = cx.get('cx', cx)
+    if 'cx_prec' not in c or not isinstance(c.get('cx_v'), dict): return None
+    import struct
+    from fractions import Fraction
+    v = abs(struct.unpack('<d', struct.pack('<Q', c['cx_v']['bits']))[0]); p = max(0, min(9, int(c['cx_prec'])))
+    if v > 2147483647.0: return 'dtoa-eband'
+    whole = int(v); f = Fraction(v) - whole; x = f * 10**p              # exact scaled fraction
+    dist = abs((x - int(x)) - Fraction(1, 2))                            # distance to the rounding tie
+    thr = x / 2**51 + Fraction(1, 2**51)                                 # rounding error bound of the double product
+    return 'dtoa-near-tie' if dist <= thr else None
 
 def replay(ctx, cx, h=None):
     c = cx.get('cx', cx)
